@@ -29,7 +29,7 @@ from harness.common import framework as fw
 
 PROP = "C17"
 GENERATED = ["RedirectGen.v"]
-RULE = ("redirect chains of length 0..7 generated from one PRNG: initial request (method x body kind x caller "
+RULE = ("redirect chains of length 0..7 generated from one PRNG: initial request (method x body kind incl. a generator blocked mid-upload x Expect: 100-continue x CookieJar|DummyCookieJar x caller "
         "Authorization / Cookie / Proxy-Authorization headers x per-request cookies x URL with embedded credentials x "
         "headers per request or as session defaults x max_redirects (incl. 0, -1) x allow_redirects x pre-loaded jar) and per hop (status from {301,302,303,307,308,200,404,...} x "
         "Location form {absolute, absolute+credentials, upper-case scheme/host, in a URI header, absolute-path relative, "
@@ -56,6 +56,7 @@ HOSTS = ["a.test", "b.test", "sub.a.test"]
 SCHEMES = ["http", "https"]
 DEFAULT_PORT = [80, 443]
 BODY_BYTES = {"none": b"", "bytes": b"payload-bytes", "gen": b"gen-chunk-1gen-chunk-2", "file": b"file-like-body",
+              "gengate": b"gated-chunk-1gated-chunk-2",
               "nonseek": b"non-seekable-body", "form": b"k=v"}
 METHODS = ["GET", "HEAD", "POST", "PUT", "DELETE", "PATCH", "OPTIONS"]
 REDIRECT_STATUSES = [301, 302, 303, 307, 308]
@@ -133,14 +134,31 @@ class _Origin:
     def __init__(self, run, sch, host, port):
         self.run, self.sch, self.host, self.port = run, sch, host, port
         self.buf = bytearray()
+        self.head_seen = False       # head of the request at the front of buf already handled
+        self.answered_early = False  # ... and already answered: its body, if it still comes, is dropped
 
     def on_bytes(self, tr, data):
         self.buf += data
         while True:
+            if not self.head_seen and b"\r\n\r\n" in self.buf:
+                self.head_seen = True
+                self.answered_early = self.run.head_received(self, tr, self._head())
             req = self._parse()
             if req is None:
                 return
-            self.run.received(self, tr, req)
+            early, self.head_seen, self.answered_early = self.answered_early, False, False
+            if not early:
+                self.run.received(self, tr, req)
+
+    def _head(self):
+        i = self.buf.find(b"\r\n\r\n")
+        head = bytes(self.buf[:i]).decode("latin-1").split("\r\n")
+        method, target, _ = head[0].split(" ", 2)
+        hs = []
+        for ln in head[1:]:
+            k, _, v = ln.partition(":")
+            hs.append((k.strip().lower(), v.strip()))
+        return {"method": method, "target": target, "headers": hs, "body": b""}
 
     def _parse(self):
         i = self.buf.find(b"\r\n\r\n")
@@ -191,6 +209,32 @@ class _Run:
         self.loop, self.case = loop, case
         self.requests = []
         self.responses = []      # every ClientResponse object created, in order
+        self.main_done = False   # requests after the call under test are answered 200
+        self.gate = None         # asyncio.Event the gated generator body waits for
+
+    def step_for(self, idx):
+        chain = self.case["chain"]
+        if self.main_done or idx >= len(chain):
+            return {"status": 200, "set_cookie": [], "body": "none", "loc": {"kind": "none"}}
+        return chain[idx]
+
+    def head_received(self, origin, tr, req):
+        """Called when the head of a request is complete.  Returns True when the request was answered
+        right away (the scripted response arrives while the client has not sent the body)."""
+        hs = dict(req["headers"])
+        expects = hs.get("expect", "").lower() == "100-continue"
+        gated = self.case.get("body") == "gengate" and "chunked" in hs.get("transfer-encoding", "").lower()
+        step = self.step_for(len(self.requests))
+        if step.get("early") and (expects or gated):
+            req["early"] = True
+            req["unsent"] = expects
+            self.received(origin, tr, req)
+            return True
+        if expects:
+            self.loop.call_soon(self._deliver, tr, b"HTTP/1.1 100 Continue\r\n\r\n")
+        if self.gate is not None:
+            self.gate.set()
+        return False
 
     def factory(self, req):
         u = req.url
@@ -199,9 +243,9 @@ class _Run:
     def received(self, origin, tr, req):
         idx = len(self.requests)
         req["origin"] = (origin.sch, origin.host, origin.port)
+        req["phase"] = "later" if self.main_done else "main"
+        step = self.step_for(idx)
         self.requests.append(req)
-        chain = self.case["chain"]
-        step = chain[idx] if idx < len(chain) else {"status": 200, "set_cookie": [], "body": "none", "loc": {"kind": "none"}}
         lines = [f"HTTP/1.1 {step['status']} R"]
         loc = loc_str(step.get("loc") or {"kind": "none"})
         if loc is not None:
@@ -215,6 +259,8 @@ class _Run:
         elif bk == "full":
             lines.append("Content-Length: 5")
             payload = b"hello"
+        elif bk == "nolength":
+            pass                     # delimited by the end of the connection, which the origin keeps open
         else:
             lines.append("Content-Length: 5")
             payload = b"he"
@@ -249,7 +295,13 @@ class _NonSeekable(io.RawIOBase):
         return len(d)
 
 
-def _make_body(kind):
+def _make_body(kind, run=None):
+    if kind == "gengate":
+        async def gated():
+            yield b"gated-chunk-1"
+            await run.gate.wait()       # opened by the origin once it has decided not to answer early
+            yield b"gated-chunk-2"
+        return gated()
     if kind == "none":
         return None
     if kind == "bytes":
@@ -296,10 +348,18 @@ def impl_run(case):
             run.responses.append(self)
 
     async def go():
+        from http.cookies import SimpleCookie
+        run.gate = asyncio.Event()
         conn = make_connector(loop, run.factory)
-        jar = aiohttp.CookieJar()
-        for h, n, v in case.get("jar") or []:
-            jar.update_cookies({f"c{n}": f"v{v}"}, response_url=URL(f"http://{HOSTS[h]}/"))
+        if case.get("jar_kind") == "dummy":
+            jar = aiohttp.DummyCookieJar()
+        else:
+            jar = aiohttp.CookieJar()
+            for e in case.get("jar") or []:
+                h, n, v = e[:3]
+                scope = e[3] if len(e) > 3 else None
+                jar.update_cookies(SimpleCookie(f"c{n}=v{v}" + (f"; Path=/p{scope}" if scope is not None else "")),
+                                   response_url=URL(f"http://{HOSTS[h]}/"))
         headers = []
         if case.get("auth") is not None:
             headers.append(("Authorization", auth_str(case["auth"])))
@@ -320,8 +380,9 @@ def impl_run(case):
         resp = None
         try:
             resp = await session.request(
-                case["method"], url_str(case["url"]), headers=headers or None, data=_make_body(case["body"]),
-                max_redirects=case.get("max_redirects", 10), allow_redirects=case.get("allow_redirects", True), **kw)
+                case["method"], url_str(case["url"]), headers=headers or None, data=_make_body(case["body"], run),
+                max_redirects=case.get("max_redirects", 10), allow_redirects=case.get("allow_redirects", True),
+                expect100=bool(case.get("expect100")), **kw)
             out["outcome"] = "done"
             out["status"] = resp.status
             out["final_url"] = str(resp.url)
@@ -348,8 +409,29 @@ def impl_run(case):
             except Exception:  # noqa  (truncated final body)
                 pass
             resp.release()
-        await asyncio.sleep(0)
+        run.main_done = True
+        run.gate.set()
+        for _ in range(10):              # let cancelled writers / deferred releases settle
+            await asyncio.sleep(0)
         out["acquired_after"] = len(conn._acquired)
+        # what is left of the call: connections, request-body writers, tasks, transports
+        out["unreleased_after"] = [i for i, r in enumerate(created) if r._connection is not None]
+
+        def writer_of(r):
+            return getattr(r, "_ClientResponse__writer", None)
+        out["writers_alive"] = [i for i, r in enumerate(created) if writer_of(r) is not None and not writer_of(r).done()]
+        me = asyncio.current_task()
+        out["pending_tasks"] = len([t for t in asyncio.all_tasks(loop) if t is not me and not t.done()])
+        pooled = {id(p) for dq in conn._conns.values() for p, _ in dq}
+        out["transports_dangling"] = [i for i, t in enumerate(conn.transports) if not t.closed and id(t.protocol) not in pooled]
+        # later requests of the same session (nothing supplied with them)
+        for fu in case.get("followups") or []:
+            try:
+                r2 = await session.get(url_str(dict(fu, cred=None)), allow_redirects=False)
+                await r2.read()
+                r2.release()
+            except Exception as e:  # noqa
+                out.setdefault("followup_errors", []).append(type(e).__name__)
         await session.close()
         return out
 
@@ -366,7 +448,8 @@ def impl_run(case):
         finally:
             asyncio.set_event_loop(None)
             loop.close()
-    out["requests"] = [canon_request(r) for r in run.requests]
+    out["requests"] = [canon_request(r) for r in run.requests if r["phase"] == "main"]
+    out["later_requests"] = [canon_request(r) for r in run.requests if r["phase"] == "later"]
     return out
 
 
@@ -399,6 +482,7 @@ def canon_request(r):
         "cookies": sorted(cookies), "n_cookie_headers": len(get("cookie")),
         "body": r["body"].decode("latin-1"),
         "content_length": get("content-length"),
+        "early": bool(r.get("early")), "unsent": bool(r.get("unsent")), "expect": get("expect"),
     }
 
 
@@ -406,7 +490,8 @@ def canon_request(r):
 # ---------------------------------------------------------------------------------------------
 # model side
 
-BODY_CODE = {"none": "N", "bytes": "R1", "file": "R2", "form": "R3", "gen": "O4", "nonseek": "O5"}
+BODY_CODE = {"none": "N", "bytes": "R1", "file": "R2", "form": "R3", "gen": "O4", "nonseek": "O5", "gengate": "O6"}
+ONE_SHOT = ("gen", "nonseek", "gengate")
 BODY_OF_CODE = {v: k for k, v in BODY_CODE.items()}
 NONHTTP_SCHEME_CODE = 4      # ftp, see translator/gen_redirect.SCHEME_CODES
 ERR_CLASS = {"AuthConflict": "ValueError", "TooManyRedirects": "TooManyRedirects", "PayloadConsumed": "ClientPayloadError",
@@ -454,14 +539,21 @@ def method_code(m):
     return METHODS.index(m) if m in METHODS else 7 + sum(map(ord, m)) % 50
 
 
-def model_line(case):
+def model_line(case, raw=None):
+    """raw = impl_run's result: tells for which hops the origin answered before any body byte was written
+    (an observation about the environment, like the response itself)."""
     chain = list(case["chain"]) + [{"status": 200, "set_cookie": [], "loc": {"kind": "none"}}]
+    dummy = case.get("jar_kind") == "dummy"
+    jar = [] if dummy else (case.get("jar") or [])
     parts = ["RUN", str(case.get("max_redirects", 10)), "1" if case.get("allow_redirects", True) else "0",
              str(method_code(case["method"])), BODY_CODE[case["body"]], _optn(case.get("auth")), _ckopt(case.get("cookie_hdr")),
              _optn(case.get("pauth")), _ckopt(case.get("req_cookies")), "0", _url(case["url"]),
-             ",".join(f"{h}:{n}:{v}" for h, n, v in case.get("jar") or []) or "-"]
-    for st in chain:
-        parts.append(f"{st['status']}/{_ckopt(st.get('set_cookie') or [])}/{_loc(st.get('loc') or {'kind': 'none'})}")
+             ",".join(":".join(str(x) for x in e if x is not None) for e in jar) or "-"]
+    reqs = (raw or {}).get("requests") or []
+    for i, st in enumerate(chain):
+        unsent = "1" if i < len(reqs) and reqs[i].get("unsent") else "0"
+        sc = [] if dummy else (st.get("set_cookie") or [])
+        parts.append(f"{st['status']}/{_ckopt(sc)}/{_loc(st.get('loc') or {'kind': 'none'})}/{unsent}")
     return " ".join(parts)
 
 
@@ -479,8 +571,9 @@ def _hist(s):
     return out
 
 
-def model_obs(answer):
-    """Canonical observable from the driver's answer line."""
+def model_obs(answer, raw=None):
+    """Canonical observable from the driver's answer line.  The body of a hop that the origin answered
+    early is not compared (marker "early" on both sides)."""
     sents_s, disps, outcome = [x.strip() for x in answer.split(" # ")]
     reqs = []
     for s in (sents_s.split("|") if sents_s else []):
@@ -499,6 +592,10 @@ def model_obs(answer):
         else:
             e = ERR_CLASS[tag[1:]]
             oc = {"outcome": e, "history": _hist(h) if e == "TooManyRedirects" else None}
+    ireqs = (raw or {}).get("requests") or []
+    for i, r in enumerate(reqs):
+        if i < len(ireqs) and ireqs[i].get("early"):
+            r["body"] = "early"
     oc["requests"] = reqs
     oc["responses"] = "" if disps == "-" else "".join("t" if d == "t" else "f" for d in disps)
     return oc
@@ -525,8 +622,7 @@ def impl_obs(case, out):
         if t is not None:
             auth_tab[urlcred_header(t)] = f"U{t}"
     pa_tab = {pauth_str(case["pauth"]): case["pauth"]} if case.get("pauth") is not None else {}
-    reqs = []
-    for r in out["requests"]:
+    def canon(r):
         def one(vals, tab):
             if not vals:
                 return None
@@ -541,12 +637,14 @@ def impl_obs(case, out):
                 cookies.append([n, v])
         body = [k for k, b in BODY_BYTES.items() if b.decode() == r["body"]]
         tgt = r["target"]
-        reqs.append({"sch": SCHEMES.index(r["sch"]) if r["sch"] in SCHEMES else r["sch"],
-                     "host": HOSTS.index(r["host"]) if r["host"] in HOSTS else r["host"], "port": r["port"],
-                     "method": r["method"] if r["method"] in METHODS else f"M{method_code(r['method'])}",
-                     "path": int(tgt[2:]) if tgt.startswith("/p") and tgt[2:].isdigit() else tgt,
-                     "auth": one(r["auth"], auth_tab), "pauth": one(r["pauth"], pa_tab),
-                     "cookies": sorted(cookies), "body": body[0] if body else "?" + r["body"]})
+        return {"sch": SCHEMES.index(r["sch"]) if r["sch"] in SCHEMES else r["sch"],
+                "host": HOSTS.index(r["host"]) if r["host"] in HOSTS else r["host"], "port": r["port"],
+                "method": r["method"] if r["method"] in METHODS else f"M{method_code(r['method'])}",
+                "path": int(tgt[2:]) if tgt.startswith("/p") and tgt[2:].isdigit() else tgt,
+                "auth": one(r["auth"], auth_tab), "pauth": one(r["pauth"], pa_tab),
+                "cookies": sorted(cookies), "body": "early" if r.get("early") else (body[0] if body else "?" + r["body"])}
+    reqs = [canon(r) for r in out["requests"]]
+    out["later_canon"] = [canon(r) for r in out.get("later_requests") or []]
     oc = {"outcome": out["outcome"]}
     if out["outcome"] == "done":
         oc["status"] = out["status"]
@@ -625,28 +723,59 @@ def oracle(case, obs, raw):
         elif isinstance(r["auth"], str) and r["auth"].startswith("?"):
             bad.append(("unknown_authorization", f"request {i} carries an Authorization nobody supplied: {r['auth']}"))
     # 3. jar cookies are selected anew for every hop (host-only cookies: exactly those of this hop's host)
-    jar = {}
-    for h, nm, v in case.get("jar") or []:
-        jar[(h, nm)] = v
-    for i, r in enumerate(reqs):
-        want = sorted([nm, v] for (h, nm), v in jar.items() if h == r["host"])
+    dummy = case.get("jar_kind") == "dummy"
+    jar = {}          # (host, name) -> (value, path scope or None)
+    for e in ([] if dummy else case.get("jar") or []):
+        jar[(e[0], e[1])] = (e[2], e[3] if len(e) > 3 else None)
+
+    def jar_check(label, r):
+        want = sorted([nm, v] for (h, nm), (v, sc) in jar.items() if h == r["host"] and (sc is None or sc == r["path"]))
         got = sorted(c for c in r["cookies"] if c[1] not in hdr_vals and c[1] not in req_vals)
         names_over = {c[0] for c in r["cookies"] if c[1] in req_vals}
         want_vis = [c for c in want if c[0] not in names_over]
         if got != want_vis:
-            bad.append(("jar_selection", f"request {i} to host {r['host']}: jar cookies sent {got}, jar holds for that host {want_vis}"))
-        if i < len(chain):
+            bad.append(("jar_selection", f"{label} to host {r['host']} path {r['path']}: jar cookies sent {got}, "
+                        f"the jar selects for that URL {want_vis}"))
+    for i, r in enumerate(reqs):
+        jar_check(f"request {i}", r)
+        if i < len(chain) and not dummy:
             for nm, v in chain[i].get("set_cookie") or []:
-                jar[(r["host"], nm)] = v
+                jar[(r["host"], nm)] = (v, None)
+    # 3b. later requests of the same session: nothing that was supplied with the earlier call, jar cookies as selected
+    for k, r in enumerate(raw.get("later_canon") or []):
+        leaks = []
+        if any(v in req_vals for _, v in r["cookies"]):
+            leaks.append("per-request cookies")
+        if not case.get("hdr_on_session"):
+            if case.get("auth") is not None and r["auth"] == f"C{case['auth']}":
+                leaks.append("Authorization")
+            if case.get("pauth") is not None and r["pauth"] is not None:
+                leaks.append("Proxy-Authorization")
+            if any(v in hdr_vals for _, v in r["cookies"]):
+                leaks.append("Cookie header")
+        if leaks:
+            bad.append(("credential_leak_later_request", f"later request {k} of the same session (to {r['sch']}:{r['host']}:{r['port']}, "
+                        f"nothing supplied with it) carries the earlier call's {', '.join(leaks)}"))
+        if not (case.get("hdr_on_session") and case.get("cookie_hdr")):
+            jar_check(f"later request {k}", r)
     # 4. method / body table
+    intended = case["body"]         # body the caller's data stands for at hop i (hops answered early show "early")
+    ireqs = raw.get("requests") or []
     for i in range(n - 1):
         st = chain[i]["status"] if i < len(chain) else 200
-        em, eb = doc_table(st, reqs[i]["method"], reqs[i]["body"])
-        if eb in ("gen", "nonseek"):
+        body_i = intended if reqs[i]["body"] == "early" else reqs[i]["body"]
+        em, eb = doc_table(st, reqs[i]["method"], body_i)
+        intended = eb
+        unsent = i < len(ireqs) and ireqs[i].get("unsent")
+        if reqs[i + 1]["body"] == "early":
+            eb_cmp = "early"
+        else:
+            eb_cmp = eb
+        if eb in ONE_SHOT and not unsent:
             bad.append(("consumed_body_followed", f"after {st} to a {reqs[i]['method']} whose one-shot body ({eb}) was already streamed, "
                         f"request {i + 1} was made ({reqs[i + 1]['method']}, body {reqs[i + 1]['body']}) instead of refusing the redirect"))
-        elif (reqs[i + 1]["method"], reqs[i + 1]["body"]) != (em, eb):
-            bad.append(("method_body_table", f"after {st} to a {reqs[i]['method']} with body {reqs[i]['body']}: next request is "
+        elif (reqs[i + 1]["method"], reqs[i + 1]["body"]) != (em, eb_cmp):
+            bad.append(("method_body_table", f"after {st} to a {reqs[i]['method']} with body {body_i}: next request is "
                         f"{reqs[i + 1]['method']} with body {reqs[i + 1]['body']}, documented {em} with {eb}"))
         if st not in REDIRECT_STATUSES:
             bad.append(("followed_non_redirect", f"request {i + 1} follows status {st}"))
@@ -677,6 +806,17 @@ def oracle(case, obs, raw):
         bad.append(("response_not_released", f"responses {[i for i, c in enumerate(obs['responses']) if c == 'L']} still hold their connection"))
     if raw.get("acquired_after"):
         bad.append(("connection_leak", f"{raw['acquired_after']} connections still acquired after the call finished"))
+    if raw.get("unreleased_after"):
+        bad.append(("response_not_released", f"after the call returned and its response was released, responses {raw['unreleased_after']} "
+                    "(history entries) still hold a connection"))
+    if raw.get("writers_alive"):
+        bad.append(("writer_leak", f"request-body writer tasks of responses {raw['writers_alive']} are still running after the call finished"))
+    if raw.get("pending_tasks"):
+        bad.append(("task_leak", f"{raw['pending_tasks']} tasks are still pending after the call finished"))
+    if raw.get("transports_dangling"):
+        bad.append(("transport_leak", f"transports {raw['transports_dangling']} are neither closed nor back in the pool"))
+    if raw.get("followup_errors"):
+        bad.append(("unexpected_exception", f"later requests raised {raw['followup_errors']}"))
     if obs["outcome"] not in ("done", "TooManyRedirects", "ClientPayloadError", "InvalidUrlRedirectClientError",
                               "NonHttpUrlRedirectClientError", "ValueError"):
         bad.append(("unexpected_exception", f"the call raised {obs['outcome']}"))
@@ -737,7 +877,9 @@ def gen_case(rng):
     cred = rng.randint(1, 9) if rng.random() < (0.08 if has_auth else 0.3) else None
     case = {
         "method": rng.choice(METHODS + ["GET", "POST", "POST"]) if rng.random() < 0.97 else "PROPFIND",
-        "body": rng.choice(["none", "none", "bytes", "bytes", "gen", "file", "nonseek", "form"]),
+        "body": rng.choice(["none", "none", "bytes", "bytes", "gen", "file", "nonseek", "form", "gengate"]),
+        "expect100": rng.random() < 0.2,
+        "jar_kind": "dummy" if rng.random() < 0.12 else "real",
         "auth": rng.randint(1, 9) if has_auth else None,
         "cookie_hdr": [[n, 100 + n] for n in rng.sample(range(1, 7), rng.randint(1, 2))] if rng.random() < 0.45 else None,
         "pauth": rng.randint(1, 9) if rng.random() < 0.35 else None,
@@ -755,6 +897,13 @@ def gen_case(rng):
         if (h, n) not in seen:
             seen.add((h, n))
             case["jar"].append([h, n, 300 + 10 * h + n])
+    for n in (8, 9):                       # cookies scoped to one path: the selection differs between same-origin hops
+        if rng.random() < 0.4:
+            h = rng.choice([o[1], o[1], rng.randint(0, 2)])
+            case["jar"].append([h, n, 300 + 10 * h + n, rng.randint(0, 4)])
+    if rng.random() < 0.4:
+        case["followups"] = [dict(zip(("sch", "host", "port"), rng.choice(ORIGINS)), path=rng.randint(0, 4))
+                             for _ in range(rng.randint(1, 2))]
     cur = (o[0], o[1], o[2])
     length = rng.choice([0, 1, 1, 2, 2, 3, 3, 4, 5, 6, 7])
     for i in range(length):
@@ -763,7 +912,10 @@ def gen_case(rng):
         st = rng.choice(REDIRECT_STATUSES) if rng.random() < 0.93 else rng.choice([200, 204, 300, 304, 305, 306, 400, 404, 500])
         loc = gen_loc(rng, cur)
         sc = [[n, 400 + 10 * i + n] for n in rng.sample(range(1, 8), rng.randint(1, 2))] if rng.random() < 0.3 else []
-        case["chain"].append({"status": st, "set_cookie": sc, "body": rng.choice(["none", "none", "full", "partial"]), "loc": loc})
+        step = {"status": st, "set_cookie": sc, "body": rng.choice(["none", "none", "full", "partial", "nolength"]), "loc": loc}
+        if (case["expect100"] or case["body"] == "gengate") and rng.random() < 0.4:
+            step["early"] = True          # answered as soon as the request head is in, no `100 Continue`
+        case["chain"].append(step)
         cur = loc_origin(cur, loc)
     return case
 
@@ -786,6 +938,39 @@ def systematic_cases():
                                     "loc": {"kind": "abs", "sch": b[0], "host": b[1], "port": b[2], "cred": None, "path": 1}},
                                    {"status": 307, "set_cookie": [], "body": "partial",
                                     "loc": {"kind": "abs", "sch": a[0], "host": a[1], "port": a[2], "cred": None, "path": 2}}]))
+    # the redirect arrives while the upload of that hop has not started / is blocked, and the 3xx's own body is not at EOF
+    for st in REDIRECT_STATUSES:
+        for b in ("bytes", "gen", "gengate", "file"):
+            for rb in ("partial", "nolength", "none"):
+                for ex in (True, False):
+                    if not ex and b != "gengate":
+                        continue
+                    out.append(dict(base, method="POST", body=b, expect100=ex,
+                                    url={"sch": 0, "host": 0, "port": None, "cred": None, "path": 0},
+                                    followups=[{"sch": 0, "host": 0, "port": None, "path": 3}],
+                                    chain=[{"status": st, "set_cookie": [], "body": rb, "early": True,
+                                            "loc": {"kind": "abs", "sch": 0, "host": 1, "port": None, "cred": None, "path": 1}},
+                                           {"status": st, "set_cookie": [], "body": rb, "early": True, "loc": {"kind": "rel", "path": 2}}]))
+    # cookie processing switched off + per-request cookies, cross-origin hop, later requests of the session
+    for a in ORIGINS[:4]:
+        for b in ORIGINS[4:7]:
+            out.append(dict(base, method="GET", body="none", jar_kind="dummy", req_cookies=[[2, 202], [3, 203]], cookie_hdr=[[1, 101]],
+                            url={"sch": a[0], "host": a[1], "port": a[2], "cred": None, "path": 0},
+                            followups=[{"sch": b[0], "host": b[1], "port": b[2], "path": 1}, {"sch": a[0], "host": a[1], "port": a[2], "path": 2}],
+                            chain=[{"status": 302, "set_cookie": [[5, 405]], "body": "none",
+                                    "loc": {"kind": "abs", "sch": b[0], "host": b[1], "port": b[2], "cred": None, "path": 1}}]))
+    # jar selection depends on the path: same-origin hops with and without Set-Cookie on the 3xx
+    for sc in ([], [[5, 405]]):
+        for kind in ("rel", "abs"):
+            loc1 = {"kind": "rel", "path": 2} if kind == "rel" else {"kind": "abs", "sch": 0, "host": 0, "port": None, "cred": None, "path": 2}
+            out.append(dict(base, method="GET", body="none", req_cookies=[[2, 202]],
+                            jar=[[0, 3, 303], [0, 8, 308, 1], [0, 9, 309, 2], [1, 4, 314, 2]],
+                            url={"sch": 0, "host": 0, "port": None, "cred": None, "path": 1},
+                            followups=[{"sch": 0, "host": 0, "port": None, "path": 1}],
+                            chain=[{"status": 302, "set_cookie": sc, "body": "none", "loc": loc1},
+                                   {"status": 307, "set_cookie": [], "body": "none", "loc": {"kind": "rel", "path": 1}},
+                                   {"status": 302, "set_cookie": [], "body": "none",
+                                    "loc": {"kind": "abs", "sch": 0, "host": 1, "port": None, "cred": None, "path": 2}}]))
     for mx in (1, 2, 3):
         for ln in (mx - 1, mx, mx + 1):
             out.append(dict(base, method="GET", body="none", max_redirects=mx,
@@ -798,19 +983,21 @@ def systematic_cases():
 # suites
 
 def check_cases(ctx, exe, suite, cases, record_known_only=False):
-    lines = [model_line(c) for c in cases]
-    # without a model runner (its build is a broken obligation already) the oracle still searches the implementation
-    answers = fw.run_model(exe, lines) if exe else [None] * len(cases)
-    ran = 0
-    for case, ans in zip(cases, answers):
+    raws = []
+    for case in cases:
         try:
-            raw = impl_run(case)
+            raws.append(impl_run(case))
         except Exception as e:  # noqa
+            raws.append(None)
             ctx.violation({"suite": suite, "kind": "harness_exception", "case": case}, f"driving the client failed: {e!r}")
-            continue
+    live = [(c, r) for c, r in zip(cases, raws) if r is not None]
+    # without a model runner (its build is a broken obligation already) the oracle still searches the implementation
+    answers = fw.run_model(exe, [model_line(c, r) for c, r in live]) if exe else [None] * len(live)
+    ran = 0
+    for (case, raw), ans in zip(live, answers):
         ran += 1
         io = impl_obs(case, raw)
-        mo = model_obs(ans) if ans is not None else None
+        mo = model_obs(ans, raw) if ans is not None else None
         followed = max(0, len(io["requests"]) - 1)
         ctx.case(json.dumps(io, sort_keys=True), nontrivial=followed > 0)
         ctx.count(f"outcome:{io['outcome']}")
@@ -818,7 +1005,11 @@ def check_cases(ctx, exe, suite, cases, record_known_only=False):
         for st in case["chain"][:len(io["requests"])]:
             ctx.count(f"status:{st['status']}")
             ctx.count(f"loc:{(st.get('loc') or {}).get('kind')}")
+            ctx.count(f"resp_body:{st.get('body', 'none')}")
         ctx.count(f"body:{case['body']}")
+        ctx.count(f"jar:{case.get('jar_kind', 'real')}")
+        ctx.count("early_answers", sum(1 for r in raw["requests"] if r.get("early")))
+        ctx.count("later_requests", len(raw.get("later_requests") or []))
         if mo is not None and mo != io:
             ctx.disagreement(suite, case, mo, io)
         for kind, msg in oracle(case, io, raw):
@@ -855,8 +1046,8 @@ def replay(ctx, case):
     c = case.get("case", case)
     raw = impl_run(c)
     io = impl_obs(c, raw)
-    ans = fw.run_model(exe, [model_line(c)])[0] if ok else None
-    mo = model_obs(ans) if ans else None
+    ans = fw.run_model(exe, [model_line(c, raw)])[0] if ok else None
+    mo = model_obs(ans, raw) if ans else None
     bad = oracle(c, io, raw)
     want = case.get("kind")
     return {"impl": io, "model": mo, "agree": mo == io, "violates": bool([b for b in bad if want is None or b[0] == want]),
